@@ -80,6 +80,7 @@ type deferred struct {
 
 // Enc encodes one function.
 type Enc struct {
+	gidNoted  map[string]bool // package-level error objects whose root identity has been asserted
 	hashArr   map[ssa.Value]string // array-valued results of sha256.Sum256 / sha1.Sum: their byte-string content (token mode)
 	allocHash map[ssa.Value]string // local arrays that hold such a result: content of a full slice over them
 	asgVals []Val // values stored by `assigns` clauses of the call being encoded (see applyContract)
